@@ -86,6 +86,10 @@ type sys struct {
 	asked      map[string]bool // (state, base-side letter) pairs whose questions were asked in this process
 	pendingErr error           // harness problem met inside a step: the next Reset reports it
 
+	// the other instances made so far in the history (world-side letters), by the
+	// name of their base; they are kept alive next to the instance under test
+	siblings map[string]*rofs.RoFS
+
 	rnd      int
 	lastKey  string
 	lastSnap snap
@@ -498,6 +502,7 @@ func (s *sys) Reset() error {
 	s.ro = rofs.New(s.base)
 	s.f = [2]slot{}
 	s.sub = subSlot{}
+	s.siblings = nil
 	s.haveSnap = false
 
 	if cmpTwin {
@@ -733,6 +738,17 @@ func (s *sys) key(sn snap) string {
 	}
 
 	b.WriteString("}")
+
+	// which other instances exist (what they are does not depend on the history)
+	if len(s.siblings) > 0 {
+		names := make([]string, 0, len(s.siblings))
+		for n := range s.siblings {
+			names = append(names, n)
+		}
+
+		sort.Strings(names)
+		b.WriteString(" world{" + strings.Join(names, ",") + "}")
+	}
 
 	return b.String()
 }
@@ -1001,6 +1017,10 @@ type detail struct {
 	Receiver string `json:"receiver"`
 	ViewNote string `json:"view_state,omitempty"`
 
+	// other instances that were made in this process by EARLIER histories (world-side letters) and
+	// are not part of this one: see everMade
+	Earlier []string `json:"other_instances_made_earlier_in_this_process,omitempty"`
+
 	// a question asked around a base-side letter (the operation of the replay is the letter)
 	Question    string `json:"question_asked_through_wrapper,omitempty"`
 	AskedBefore string `json:"answer_before_the_change,omitempty"`
@@ -1076,6 +1096,10 @@ func (s *sys) Step(op int) bfs.StepResult {
 
 	if o.Recv == "base" {
 		return s.baseStep(o)
+	}
+
+	if o.Recv == "world" {
+		return s.worldStep(o)
 	}
 
 	// --- resolve receiver on both sides
@@ -1206,6 +1230,12 @@ func (s *sys) Step(op int) bfs.StepResult {
 			notRefused = true
 
 			add("not-refused", what, detail{Expected: "non-nil error with errors.Is(err, fs.ErrPermission)", Observed: "nil error"})
+
+			if what == "ok+handle" {
+				if w, diff := s.tryHandle(real.File, after); w != "" {
+					add("writable-handle", w, detail{Expected: "a handle handed out by a read-only file system refuses Write, WriteString, Truncate and Chmod and leaves the base alone", Observed: w, BaseDiff: diff})
+				}
+			}
 		case s.refusal(o, real.Err):
 		case anyErr:
 			// invalid handle (returned together with an error): any error will do
@@ -1379,6 +1409,204 @@ func (s *sys) Step(op int) bfs.StepResult {
 	}
 }
 
+// everMade: the other instances made in this PROCESS by world-side letters,
+// whatever the history (never reset). The histories of an exploration are
+// executed one after the other in the same worker processes, and the defect a
+// world-side letter looks for is state that is not per instance: where it
+// exists, what a letter left behind also reaches the histories executed after
+// it in the process. Such a history really ran in a start state "another
+// instance was made (and dropped) before the history began", so a violation
+// reported on it says so (detail.Earlier), and the replay file holds the
+// letters in front of the history (main.go): it reproduces in a fresh process.
+var everMade = map[string]bool{}
+
+// madeEarlier: the instances made earlier in this process that are not part of the current history.
+func (s *sys) madeEarlier() []string {
+	var out []string
+
+	for n := range everMade {
+		if _, ok := s.siblings[n]; !ok {
+			out = append(out, n)
+		}
+	}
+
+	sort.Strings(out)
+
+	return out
+}
+
+// worldStep executes a world-side letter (worldLetters in alphabet.go): another
+// base of the named kind and OS type is built (the tree every base holds),
+// wrapped by rofs.New and used the way any instance is used; it stays alive
+// for the rest of the history. Nothing of the instance under test is touched:
+// oracle 1 (the base under test, with its answers, is identical before and
+// after) applies to the letter itself, a panic of the constructor or of the
+// sibling is reported, and everything else is judged by the calls that follow
+// on the instance under test, exactly as without the letter.
+func (s *sys) worldStep(o opDesc) bfs.StepResult {
+	name := o.Args[0].S
+	via, variant := "world", name
+
+	fail := func(k, what, msg string) bfs.StepResult {
+		return bfs.StepResult{Changed: true, Broken: true, Key: "BROKEN|world-" + k, Outcome: "harness/world-" + k,
+			Viols: []bfs.Viol{s.viol(o, via, variant, strings.ToLower(k), what+": "+panicClass(msg), detail{Observed: msg})}}
+	}
+
+	before := s.lastSnap
+	if !s.haveSnap {
+		var k, msg string
+
+		if before, k, msg = s.snapshot(true); k != "" {
+			return fail(k, "snapshot of the base before the letter", msg)
+		}
+	}
+
+	if k, msg := s.askNow(&before); k != "" {
+		return fail(k, "answers of the base before the letter", msg)
+	}
+
+	viewBefore, twViewBefore := viewState(s.base), viewState(s.tw)
+
+	var (
+		sib  *rofs.RoFS
+		berr error
+	)
+
+	_, win := sysKind(name)
+	sp := func(pth string) string { return spell(win, pth) }
+
+	k, msg := fsx.Guard(func() {
+		var b hooked
+
+		if b, _, berr = build(name, s.tier, false); berr != nil {
+			return
+		}
+
+		everMade[name] = true
+		sib = rofs.New(b)
+
+		// an instance in use: it moves, takes a view, reads, is refused
+		_ = sib.Chdir(sp("/d/e"))
+		_ = sib.SetUMask(0o077)
+		_ = sib.Mkdir(sp("/d/new"), 0o755)
+		_ = sib.Chown(sp("/d/f"), 0, 0)
+
+		if v, err := sib.Sub(sp("/d")); err == nil && v != nil {
+			_ = v.Remove(sp("/f"))
+			_, _ = v.ReadDir(sp("/"))
+		}
+
+		if f, err := sib.Open(sp("/d/f")); err == nil {
+			_, _ = f.Write([]byte("XY"))
+			_ = f.Close()
+		}
+	})
+
+	if berr != nil {
+		// the sibling cannot be built: a problem of the harness, not a verdict
+		s.pendingErr = fmt.Errorf("world-side letter %s: %v", o, berr)
+
+		return bfs.StepResult{Changed: true, Broken: true, Key: "BROKEN|world-setup", Outcome: "harness/world-setup"}
+	}
+
+	var viols []bfs.Viol
+
+	add := func(kind, what string, d detail) {
+		d.Receiver = "rofs.New over another " + name
+		viols = append(viols, s.viol(o, via, variant, kind, what, d))
+	}
+
+	poisoned := k != ""
+	if poisoned {
+		add(strings.ToLower(k), panicClass(msg), detail{Expected: "another read-only file system can be created and used", Observed: k + ": " + msg})
+	}
+
+	after, k2, msg2 := s.snapshot(true)
+	if k2 != "" {
+		add(strings.ToLower(k2), "snapshot of the base after the letter: "+panicClass(msg2), detail{Expected: "base can be walked after the letter", Observed: msg2})
+
+		s.haveSnap = false
+
+		return bfs.StepResult{Changed: true, Broken: true, Key: "BROKEN|nodump|" + o.String(), Outcome: "world.NewRoFS/" + name + "+nodump", Viols: viols}
+	}
+
+	outc := "world.NewRoFS/" + name
+
+	if what, diff := changeClass(before, after); what != "" {
+		add("base-changed", what, detail{Expected: "the base of the instance under test is identical before and after another instance is created and used", Observed: "changed: " + what, BaseDiff: diff})
+
+		s.haveSnap = false
+
+		return bfs.StepResult{Changed: true, Broken: true, Key: "BROKEN|" + hash(strings.Join(after.v, "\n")), Outcome: outc + "+base-changed", Viols: viols}
+	}
+
+	// the view state of the base under test and of its twin belongs to them
+	if v, tv := viewState(s.base), viewState(s.tw); v != viewBefore || tv != twViewBefore {
+		add("base-changed", "view-state", detail{Expected: "current directory, mask, user and identity manager of the base under test as before: " + viewBefore, Observed: v})
+
+		s.haveSnap = false
+
+		return bfs.StepResult{Changed: true, Broken: true, Key: "BROKEN|world-view|" + v + "|" + tv, Outcome: outc + "+view", Viols: viols}
+	}
+
+	if sib != nil && !poisoned {
+		if s.siblings == nil {
+			s.siblings = map[string]*rofs.RoFS{}
+		}
+
+		s.siblings[name] = sib
+	}
+
+	key := s.key(after)
+	changed := key != s.lastKey
+	s.lastKey = key
+	s.lastSnap, s.haveSnap = after, true
+
+	return bfs.StepResult{Changed: changed, Key: key, Rebuild: poisoned, Outcome: outc + " asked=1", Viols: viols}
+}
+
+// tryHandle: a mutating call was not refused AND handed out a handle. The
+// state is not expanded (the property is violated already), so the handle is
+// asked here what the File letters would ask it later: can the underlying file
+// system be changed through it? A read-only file system must never hand out
+// the handle of its base as it is. since: the snapshot taken after the call.
+// what == "": every call was refused and the base stayed as it was.
+func (s *sys) tryHandle(f avfs.File, since snap) (what, diff string) {
+	var went []string
+
+	k, msg := fsx.Guard(func() {
+		if _, err := f.Write([]byte("XY")); err == nil {
+			went = append(went, "Write")
+		}
+
+		if _, err := f.WriteString("XY"); err == nil {
+			went = append(went, "WriteString")
+		}
+
+		if err := f.Truncate(1); err == nil {
+			went = append(went, "Truncate")
+		}
+
+		if err := f.Chmod(fsx.UnixMode(0o600)); err == nil {
+			went = append(went, "Chmod")
+		}
+	})
+	if k != "" {
+		went = append(went, k+":"+panicClass(msg))
+	}
+
+	now, k, msg := s.snapshot(since.ans != nil)
+	if k != "" {
+		return strings.Join(append(went, "nodump:"+panicClass(msg)), "+"), ""
+	}
+
+	if cl, d := changeClass(since, now); cl != "" {
+		went, diff = append(went, "base:"+cl), d
+	}
+
+	return strings.Join(went, "+"), diff
+}
+
 // refusal: the error of a mutating call belongs to the permission class,
 // errors.Is(err, fs.ErrPermission), as the statement demands for every
 // mutating call. On a Windows-typed file system RoFS answers Chown and Lchown
@@ -1398,6 +1626,8 @@ func twHelperOrNil(v avfs.VFS) avfs.VFS {
 }
 
 func (s *sys) viol(o opDesc, via, variant, kind, what string, d detail) bfs.Viol {
+	d.Earlier = s.madeEarlier()
+
 	b, _ := json.Marshal(d)
 
 	return bfs.Viol{
